@@ -35,6 +35,7 @@ FAMS = ['OO', 'OI', 'IO', 'LO', 'OL', 'UO', 'QO', 'OU', 'OQ']
 
 def must_see(tier):
     m = {'ledger-checks': 20000, 'teardown-checks': 100,
+         'valgrind:evaluations': 500,
          'height>=3': 10, 'evict-reload': 20}
     for op in ('setitem', 'delitem', 'pop', 'popitem', 'setdefault', 'update',
                'clear', 'get', 'keys-range', 'iterator-partial',
@@ -56,6 +57,13 @@ def plan(tier, seed):
         specs.append(dict(label=fam + '-asan', family=fam,
                           histories=3 if q else 25, seed=seed + 9, tier=tier,
                           variant='asan', timeout=1500 if q else 7200))
+    # valgrind memcheck on the monitor build: reads of uninitialised memory
+    # and intra-object overruns that ASan's red zones cannot see (~50x: a
+    # few histories only)
+    for fam in (['OO', 'IO'] if q else ['OO', 'IO', 'OI', 'LO', 'OQ']):
+        specs.append(dict(label=fam + '-valgrind', family=fam,
+                          histories=1 if q else 6, seed=seed + 17, tier=tier,
+                          variant='vg', timeout=1800 if q else 7200))
     return specs
 
 
